@@ -138,11 +138,11 @@ Definition rotate_buf (b : list Z) (first mid last : Z) : res (list Z) :=
   do r <- C06a.Model.rotate b (Z.to_nat first) (Z.to_nat mid) (Z.to_nat last); Ok (fst r).
 
 (* insert_impl(pos, text, count): append at the end, then rotate into place.
-   pos beyond end() is not a valid iterator of the string: [pos, currentEnd) is then not a range
-   and the call has undefined behaviour (std::basic_string throws out_of_range; there is no check here) *)
+   Every index-based insert overload starts with TETL_PRECONDITION(index <= size()) (fix commit: before it an
+   index beyond size() made [pos, currentEnd) an invalid range and rotate wrote out of bounds) *)
 Definition insert_impl_m (s : istr) (pos : Z) (src : list Z) (count : Z) : res istr :=
   let currentEnd := get_size s in
-  if pos >? currentEnd then UB OutOfBounds else
+  if pos >? currentEnd then Contract else
   do s1 <- append_ptr_m s src count;
   do b <- rotate_buf (buf s1) pos currentEnd (get_size s1);
   Ok (with_buf s1 b).
@@ -154,7 +154,7 @@ Fixpoint insert_fill_loop (n : nat) (s : istr) (index ch : Z) : res istr :=
   | S k => do s' <- insert_impl_m s index [ch] 1; insert_fill_loop k s' index ch
   end.
 Definition insert_fill_m (s : istr) (index count ch : Z) : res istr :=
-  insert_fill_loop (Z.to_nat count) s index ch.
+  if index >? get_size s then Contract else insert_fill_loop (Z.to_nat count) s index ch.
 
 (* erase(const_iterator first, const_iterator last), iterators given as start and distance *)
 Definition erase_range_m (s : istr) (start distance : Z) : res istr :=
@@ -229,6 +229,61 @@ Definition str_compare5_m (a : istr) (pos1 count1 : Z) (b : istr) (pos2 count2 :
   do sub2 <- C08.Model.substr_m (view_of b) pos2 sz2;
   compare_m (ckind a) sub1 sub2.
 
+(** * the remaining overloads: argument plumbing as written in the header *)
+(* a second string object of the same type holding src (the harness builds it with the (ptr, len) constructor) *)
+Definition other_str (s : istr) (src : list Z) : res istr := ctor_ptr (cap s) (ckind s) src (zlen src).
+(* an array as a view of all of its characters; the characters a view spans *)
+Definition arr_view (a : list Z) : view := mkview a 0 (zlen a).
+Definition view_chars_m (v : view) : list Z := firstn (Z.to_nat (vlen v)) (skipn (Z.to_nat (voff v)) (vbuf v)).
+
+(* append(const_pointer s) / operator+=(s): Traits::length(s), then append(s, len) *)
+Definition append_cstr_m (s : istr) (a : list Z) : res istr :=
+  do len <- strlen_m (arr_view a); append_ptr_m s a len.
+(* append(str) / operator+=(str) / operator+(lhs, str): append(str.begin(), str.end()), one push_back each *)
+Definition append_str_m (s : istr) (src : list Z) : res istr :=
+  do o <- other_str s src; append_range_m s (contents o).
+(* append(str, pos, count) = append(str.substr(pos, count)) — str.substr gives "" for pos > str.size() *)
+Definition append_str_sub_m (s : istr) (src : list Z) (pos count : Z) : res istr :=
+  do o <- other_str s src; do sub <- substr_m o pos count; append_range_m s (contents sub).
+(* append(view, pos, count): sv.substr(pos, count) (precondition pos <= sv.size()), then append(sub.data(), sub.size()) *)
+Definition append_view_sub_m (s : istr) (src : list Z) (pos count : Z) : res istr :=
+  do sub <- C08.Model.substr_m (arr_view src) pos count; append_ptr_m s (view_chars_m sub) (vlen sub).
+(* assign(s) / operator=(s): basic_inplace_string{s, Traits::length(s)} *)
+Definition assign_cstr_m (s : istr) (a : list Z) : res istr :=
+  do len <- strlen_m (arr_view a); ctor_ptr (cap s) (ckind s) a len.
+(* assign(str, pos, count): *this = str.substr(pos, count) *)
+Definition assign_str_sub_m (s : istr) (src : list Z) (pos count : Z) : res istr :=
+  do o <- other_str s src; substr_m o pos count.
+(* assign(view, pos, count): basic_inplace_string{view.substr(pos, count)} -> assign(sv.begin(), sv.end()) -> (first, distance) *)
+Definition assign_view_sub_m (s : istr) (src : list Z) (pos count : Z) : res istr :=
+  do sub <- C08.Model.substr_m (arr_view src) pos count; ctor_ptr (cap s) (ckind s) (view_chars_m sub) (vlen sub).
+(* insert(index, s): insert_impl(begin() + index, s, Traits::length(s)) *)
+Definition insert_cstr_m (s : istr) (index : Z) (a : list Z) : res istr :=
+  if index >? get_size s then Contract else
+  do len <- strlen_m (arr_view a); insert_impl_m s index a len.
+(* insert(index, str, indexStr, count) and insert(index, view, indexStr, count): TETL_PRECONDITION(index <= size());
+   view(str).substr(indexStr, count) (precondition indexStr <= str.size()), then insert_impl(sub.data(), sub.size()) *)
+Definition insert_str_sub_m (s : istr) (index : Z) (src : list Z) (indexStr count : Z) : res istr :=
+  if index >? get_size s then Contract else
+  do sub <- C08.Model.substr_m (arr_view src) indexStr count; insert_impl_m s index (view_chars_m sub) (vlen sub).
+(* erase(const_iterator position) = erase(position, position + 1) *)
+Definition erase_pos_m (s : istr) (pos : Z) : res istr := erase_range_m s pos 1.
+
+(** * free functions etl::erase(c, value) / etl::erase_if(c, pred):
+      it = etl::remove(_if)(begin(c), end(c), ...); r = distance(it, end(c)); c.erase(it, end(c)); return r.
+      etl::remove_if is the C06a model, run on the character range [begin, end) and spliced back into the array *)
+(* the predicates of the correspondence run, by id *)
+Definition pred_of (k : Z) : Z -> bool :=
+  if k =? 0 then (fun x => (x =? 97) || (x =? 0)) else Z.even.
+Definition free_erase_if_m (p : Z -> bool) (s : istr) : res (istr * Z) :=
+  let size := get_size s in
+  do r <- C06a.Model.remove_if p (contents s);
+  let b := fst r ++ skipn (Z.to_nat size) (buf s) in
+  let it := Z.of_nat (snd r) in
+  let rcount := sz (size - it) in
+  do s' <- erase_range_m (with_buf s b) it rcount;
+  Ok (s', rcount).
+
 (** * Histories *)
 Inductive op :=
 | OClear
@@ -245,7 +300,19 @@ Inductive op :=
 | OAssignPtr (src : list Z) (count : Z)
 | OAssignFill (count ch : Z)
 | OSubstr (pos count : Z)       (* s = s.substr(pos, count) *)
-| OSwapWith (src : list Z).     (* swap with a string built from src; keeps the other's value *)
+| OSwapWith (src : list Z)      (* swap with a string built from src; keeps the other's value *)
+| OAppendCstr (a : list Z)
+| OAppendStr (src : list Z)
+| OAppendStrSub (src : list Z) (pos count : Z)
+| OAppendViewSub (src : list Z) (pos count : Z)
+| OAssignCstr (a : list Z)
+| OAssignStrSub (src : list Z) (pos count : Z)
+| OAssignViewSub (src : list Z) (pos count : Z)
+| OInsertCstr (index : Z) (a : list Z)
+| OInsertStrSub (index : Z) (src : list Z) (indexStr count : Z)
+| OErasePos (pos : Z)
+| OFreeErase (value : Z)          (* etl::erase(s, value) *)
+| OFreeEraseIf (k : Z).           (* etl::erase_if(s, pred_of k) *)
 
 Definition step (s : istr) (o : op) : res istr :=
   match o with
@@ -266,6 +333,35 @@ Definition step (s : istr) (o : op) : res istr :=
   | OSwapWith src =>
       do o <- ctor_ptr (cap s) (ckind s) src (zlen src);
       do r <- swap_m s o; Ok (fst r)
+  | OAppendCstr a => append_cstr_m s a
+  | OAppendStr src => append_str_m s src
+  | OAppendStrSub src pos count => append_str_sub_m s src pos count
+  | OAppendViewSub src pos count => append_view_sub_m s src pos count
+  | OAssignCstr a => assign_cstr_m s a
+  | OAssignStrSub src pos count => assign_str_sub_m s src pos count
+  | OAssignViewSub src pos count => assign_view_sub_m s src pos count
+  | OInsertCstr index a => insert_cstr_m s index a
+  | OInsertStrSub index src indexStr count => insert_str_sub_m s index src indexStr count
+  | OErasePos pos => erase_pos_m s pos
+  | OFreeErase value => do r <- free_erase_if_m (fun x => x =? value) s; Ok (fst r)
+  | OFreeEraseIf k => do r <- free_erase_if_m (pred_of k) s; Ok (fst r)
+  end.
+
+(* the count returned by the free erase functions *)
+Definition returned_count (s : istr) (o : op) : res (option Z) :=
+  match o with
+  | OFreeErase value => do r <- free_erase_if_m (fun x => x =? value) s; Ok (Some (snd r))
+  | OFreeEraseIf k => do r <- free_erase_if_m (pred_of k) s; Ok (Some (snd r))
+  | _ => Ok None
+  end.
+
+(* the iterator a mutator returns, as an offset from begin(): erase(first, last) and erase(position)
+   return begin() + start *)
+Definition returned_pos (o : op) : option Z :=
+  match o with
+  | OEraseRange start _ => Some start
+  | OErasePos pos => Some pos
+  | _ => None
   end.
 
 Fixpoint run (s : istr) (ops : list op) : res istr :=
@@ -274,14 +370,40 @@ Fixpoint run (s : istr) (ops : list op) : res istr :=
   | o :: r => do s' <- step s o; run s' r
   end.
 
-(** * replace(pos, count, str): overwrites in place through detail::str_replace — the length never
-      changes (recorded known finding KF-C04-replace-inplace; the behaviour is pinned by tests/string) *)
+(** * replace: every index-based overload overwrites in place through detail::str_replace
+      ("for (; f != l && sf != sl; ++f, ++sf) *f = *sf;") — the length never changes (recorded known finding
+      KF-C04-replace-inplace; the behaviour is pinned by tests/string).  Preconditions and clamps as the code is
+      after the fix commits: TETL_PRECONDITION(pos <= size()); [f, l) = [pos, pos + min(count, size() - pos)). *)
+Definition rep_n (s : istr) (pos count avail : Z) : Z :=
+  let n1 := min_sz count (sz (get_size s - pos)) in if avail <? n1 then avail else n1.
+(* replace(pos, count, str) *)
 Definition replace_m (s : istr) (pos count : Z) (src : list Z) : res istr :=
-  if pos <? get_size s then
-    if sz (pos + count) <? get_size s then
-      (* for (; f != l && sf != sl; ++f, ++sf) *f = *sf; *)
-      let n := if zlen src <? count then zlen src else count in
-      do b <- write_range (buf s) pos (firstn (Z.to_nat n) src);
+  if pos <=? get_size s then
+    do b <- write_range (buf s) pos (firstn (Z.to_nat (rep_n s pos count (zlen src))) src);
+    Ok (with_buf s b)
+  else Contract.
+(* replace(pos, count, Char const* str, count2): the same with [str, str + count2) *)
+Definition replace_ptr_m (s : istr) (pos count : Z) (src : list Z) (count2 : Z) : res istr :=
+  if pos <=? get_size s then
+    do l <- take_chk src (rep_n s pos count count2);
+    do b <- write_range (buf s) pos l;
+    Ok (with_buf s b)
+  else Contract.
+(* replace(pos, count, Char const* str): count2 = Traits::length(str), evaluated after the precondition *)
+Definition replace_cstr_m (s : istr) (pos count : Z) (a : list Z) : res istr :=
+  if pos <=? get_size s then
+    do len <- strlen_m (arr_view a);
+    do l <- take_chk a (rep_n s pos count len);
+    do b <- write_range (buf s) pos l;
+    Ok (with_buf s b)
+  else Contract.
+(* replace(pos, count, str, pos2, count2 = npos): TETL_PRECONDITION(pos <= size()); TETL_PRECONDITION(pos2 <= str.size());
+   [sf, sl) = [pos2, pos2 + min(count2, str.size() - pos2)) *)
+Definition replace5_m (s : istr) (pos count : Z) (src : list Z) (pos2 count2 : Z) : res istr :=
+  if pos <=? get_size s then
+    if pos2 <=? zlen src then
+      let n2 := min_sz count2 (sz (zlen src - pos2)) in
+      do b <- write_range (buf s) pos (firstn (Z.to_nat (rep_n s pos count n2)) (skipn (Z.to_nat pos2) src));
       Ok (with_buf s b)
     else Contract
   else Contract.
